@@ -1,7 +1,8 @@
 (* C16/Proofs.v : grouping, Trotter structure, step counting, exponential solver *)
-From Coq Require Import ZArith List Bool Arith Lia Permutation Floats.
+From Coq Require Import ZArith List Bool Arith Lia Permutation Floats QArith.
 From QV Require Import Base.Mat Base.Zi C15.MatDefs C15.Model C15.MatAlg C15.Proofs C16.Model.
 Import ListNotations.
+Local Close Scope Q_scope.
 
 (* ------------------------------------------------------------------ from_terms *)
 Lemma insert_desc_perm t l : Permutation (insert_desc t l) (t :: l).
@@ -175,3 +176,15 @@ Proof.
 Qed.
 Lemma evolve_nonpos {S} (step : S -> S) z s : (z <= 0)%Z -> evolve step z s = s.
 Proof. intros H. unfold evolve. destruct z; try reflexivity. lia. Qed.
+
+(* ------------------------------------------------------------------ repeated executions *)
+(* the schedule arguments of every run are those of a fresh object: execute() overwrites total_time *)
+Theorem ad_history_fresh runs : forall st,
+  ad_history st runs = map (fun r : Q * list Q => snd (ad_execute None (fst r) (snd r))) runs.
+Proof.
+  induction runs as [|[T times] runs IH]; intros st; [reflexivity|].
+  cbn [ad_history map fst snd ad_execute]. now rewrite IH.
+Qed.
+Lemma ad_stale_differs :   (* the defect class is visible on a history of two runs with different T *)
+  snd (ad_execute_stale (Some 1%Q) 2%Q [(1 # 2)%Q]) <> snd (ad_execute (Some 1%Q) 2%Q [(1 # 2)%Q]).
+Proof. vm_compute. discriminate. Qed.
